@@ -15,6 +15,7 @@ package os
 //@ external path/filepath.Clean
 //@ uf
 //@ ensures isclean(result)
+//@ ensures result != ""
 //@ ensures !prefixof("..", result) ==> noDD(result)
 //@ ensures isclean(path) && path != "" ==> result == path
 
